@@ -407,10 +407,10 @@ class Bus (objects.DBusObject):
 
                 return client.NAME_ALREADY_OWNER
             else:
-                if not replace_existing:
-                    return client.NAME_IN_USE
-
-                if owner.busNames[name]:
+                if replace_existing and owner.busNames[name]:
+                    if caller in queue:
+                        # it was waiting for the name
+                        queue.remove(caller)
                     del queue[0]
                     queue.insert(0, caller)
                     del owner.busNames[name]
@@ -418,14 +418,19 @@ class Bus (objects.DBusObject):
                     self.sendSignal(owner, 'NameLost', 's', name)
                     signalAcq(owner.uniqueName)
                     return client.NAME_ACQUIRED
-                else:
-                    if do_not_queue:
-                        return client.NAME_IN_USE
 
+                if do_not_queue:
+                    if caller in queue:
+                        # no longer willing to wait
+                        queue.remove(caller)
+                        del caller.busNames[name]
+                    return client.NAME_IN_USE
+
+                if caller not in queue:
                     queue.append(caller)
-                    caller.busNames[name] = allow_replacement
+                caller.busNames[name] = allow_replacement
 
-                    return client.NAME_IN_QUEUE
+                return client.NAME_IN_QUEUE
 
     def dbus_ReleaseName(self, name, dbusCaller=None):
         caller = self.clients[dbusCaller]
